@@ -396,7 +396,7 @@ func (h *Session) Notify(frame Frame) {
 		if !frame.SrcAddr.IP.IsValid() {
 			return
 		}
-		frame.Host = h.findIP(frame.SrcAddr.IP)
+		frame.Host = h.FindIP(frame.SrcAddr.IP) // takes the session read lock: purge deletes from the table concurrently
 		if frame.Host == nil {
 			return
 		}
